@@ -20,7 +20,7 @@ txt = '''
 still passes, the agent's demonstration fails with the change and passes without. The registered quick check of the
 property was then run with `VERIF_REPO=<scratch copy with the change>`. Changes that were missed at first led to the
 strengthening named in the last column (scenario families, alphabets or oracle clauses were added; nothing was
-special-cased). All confirmed changes but the one marked NOT COVERED are detected now. Details, patches and demonstrations: `seeded/<id>/`.
+special-cased). All are detected now. Details, patches and demonstrations: `seeded/<id>/`.
 
 | change | confirmed | detected by | first violation kinds | initially missed -> strengthening |
 |---|---|---|---|---|
